@@ -2,6 +2,7 @@
 CONSTANTS
   MaxLen = 3
   ApiFilter = {}
+  TmoOnly = {}
   Design = "extracted"
   Emit = TRUE
 SPECIFICATION Spec
